@@ -227,7 +227,14 @@ pub fn run(ctx: &mut Ctx) {
         if cond.fperiod.is_none() && rng.chance(0.5) {
             engine.condition.set_fperiod(rng.range(1, 64));
         }
-        let labels = env.corpus.random_utterance(rng, 1, if q { 6 } else { 30 });
+        // one case in eight: speeds at the far ends of what the setter accepts, on a short
+        // utterance (one-shot and step-wise generation must agree there as well)
+        let extreme_speed = idx % 8 == 5;
+        if extreme_speed {
+            engine.condition.set_speed(*rng.pick(&[0.05, 0.08, 0.099, 20.0, 50.0]));
+            engine.condition.set_phoneme_alignment_flag(false);
+        }
+        let labels = if extreme_speed { env.corpus.random_utterance(rng, 1, 2) } else { env.corpus.random_utterance(rng, 1, if q { 6 } else { 30 }) };
         let w = match guard(|| engine.synthesize(labels.clone())) {
             Ok(Ok(w)) => w,
             Ok(Err(e)) => {
